@@ -87,6 +87,19 @@ class CHECK(Check):
                 for tail in (';', ' ;', ';;', ' ; ; ', '\n;\n', ' ;\t'):
                     out.append((d, 'text', m.text_of(a) + tail))
                 out.append((d, 'text', '; ' + m.text_of(a)))
+            # separator / tail products: statement, every sequence of <= 2 separator atoms, statement or garbage, every tail
+            # (clean-up of the end of the text must never reach back over tokens)
+            atoms = [';', ' ', '\n', ' -- c\n', ' /* c */ ', ' --\n', ' /* ; */ ', " '", ' "']
+            seps = [''.join(t) for n in (1, 2) for t in itertools.product(atoms[:7], repeat=n)]
+            tails = ['', ' /* c */', ' -- c', ';', ' ; /* c */', ' /* c */ ;', '\n-- c\n', ' /* c */ /* d */', ' ; -- c', " ; '", ' ; /*', ' ; */']
+            seconds = [m.text_of(b) for b in tops[:3]] + [m.text_of(g) for g in self.GARBAGE[:3]] + ['/* x */', "'"]
+            for a in tops[:5] if self.tier != 'thorough' else tops[:12]:
+                for b in seconds:
+                    for sep in seps:
+                        if not sep.strip():
+                            continue
+                        for tail in tails:
+                            out.append((d, 'text', m.text_of(a) + sep + b + tail))
             if self.tier == 'thorough':
                 for s in f.s0_triples(exclude=pairs):
                     out.append((d, 's0t', s))
@@ -227,7 +240,7 @@ class CHECK(Check):
         cov.update({'states': st, 'transitions': tr, 'traces_validated_against_impl': agg['n'],
                     'per_dialect': per,
                     'rule': 'cases = S0 edge cover + production-pair cover + S1 (insert/replace with every terminal, delete, truncate at every '
-                            'abstract state, each also with one token per line) + statement concatenations in 9 layouts and with a line break at every position (thorough: + production triples, k=2 states, two deviations); distinct_nontrivial = distinct accepted token streams'})
+                            'abstract state, each also with one token per line) + statement concatenations in 9 layouts and with a line break at every position + statement x every sequence of <= 2 separator atoms (semicolon, blank, line break, line / block comments) x statement or garbage x 12 tails (thorough: + production triples, k=2 states, two deviations); distinct_nontrivial = distinct accepted token streams'})
         return cov
 
     def describe_case(self, case):
